@@ -309,6 +309,8 @@ def check(case, acc=None):
         return check_override(case, acc)
     if case['kind'] == 'ctor':
         return check_ctor(case)[0]
+    if case['kind'] == 'dup':
+        return check_dup_strict(case)
     if case['kind'] == 'overlong':
         return check_overlong(case['v'], case['dt'])[0]
     return check_input(case, acc)
@@ -540,8 +542,52 @@ def ctor_cases(v, rnd):
                        'val': rnd.choice(['a', '12', 'a^b', 'a&b']) if cls != 'SubComponent' else rnd.choice(['a', '12'])}
 
 
+def check_dup_strict(case):
+    """a structure that lists one optional segment twice among the children of the message (with different maxima): as many of
+    them as STRICT accepts, the validator accepts too"""
+    from hl7apy.core import Message
+    from hl7apy.exceptions import HL7apyException
+    v, m, name = case['v'], case['m'], case['name']
+    try:
+        msg = Message(m, version=v, validation_level=STRICT)
+        accepted = 0
+        for _ in range(case['n']):
+            try:
+                msg.add_segment(name)
+                accepted += 1
+            except HL7apyException:
+                pass
+        errs, warns = _report(msg)
+    except Exception as e:
+        return [('C05-duplicate-sibling-raises:%s' % type(e).__name__, '%s %s %s: %s' % (v, m, name, e))]
+    bad = [e for e in errs if not e.startswith('Missing required child')]
+    if bad:
+        return [('C05-strict-accepted-but-validator-reports:duplicate-sibling', '%s %s: STRICT took %d x %s, validate() reports %s' % (v, m, accepted, name, bad[:2]))]
+    return []
+
+
+def dup_cases():
+    import collections
+    from hv.props import c04
+    for v, m in c04.dup_sibling_structures():
+        rows = T.struct_children(T.message_ref(v, m))
+        cnt = collections.Counter(n for n, r, c, k in rows)
+        for name in sorted(n for n in cnt if cnt[n] > 1):
+            rs = [(c, k) for n, r, c, k in rows if n == name]
+            if any(c[0] > 0 for c, k in rs) or any(k != 'SEG' for c, k in rs) or name not in T.segments(v):
+                continue            # (required duplicates are the known finding V1 of C04; groups need content)
+            for n in (2, 3):
+                yield {'kind': 'dup', 'v': v, 'm': m, 'name': name, 'n': n}
+
+
 def run_shard(shard, acc):
     k = shard['kind']
+    if k == 'dups':
+        for case in dup_cases():
+            for sig, detail in check_dup_strict(case):
+                acc.violation(sig, case, detail)
+            acc.case(None, True, sample=case, label='duplicate-optional-sibling', enumerated=True)
+        return
     if k == 'ctor':
         import random
         for v in T.VERSIONS:
@@ -589,6 +635,7 @@ def plan(tier, seed):
     for i in range(4 if q else 12):
         shards.append({'kind': 'history', 'versions': T.VERSIONS, 'seed': seed * 1000 + 200 + i, 'n': 200 if q else 1500, 'shrink': not q})
     shards.append({'kind': 'lengths'})
+    shards.append({'kind': 'dups'})
     for i in range(1 if q else 8):
         shards.append({'kind': 'ctor', 'seed': seed * 10 + i})
     for i in range(2 if q else 8):
